@@ -289,7 +289,7 @@ def _validate_no_interrupt_in_map_over(nodes: dict[str, HyperNode]) -> None:
             continue
         if not node.graph.has_interrupts:
             continue
-        interrupt_names = [n.name for n in node.graph.interrupt_nodes]
+        interrupt_names = node.graph.interrupt_paths
         raise GraphConfigError(
             f"GraphNode '{node.name}' has map_over but wrapped graph contains "
             f"InterruptNode(s): {', '.join(interrupt_names)}. "
